@@ -2,6 +2,8 @@
 (src/props/cNN.rs); this table only holds what the runner needs."""
 
 PROPS = {
+    "C03": dict(level="exploration", shards=16, thorough_layers=[]),
+    "C05": dict(level="exploration", shards=16, thorough_layers=[]),
     "C01": dict(level="exploration", shards=16, post="post_c01", thorough_layers=["asan", "miri"],
                 layer_cfg={"miri": dict(shards=16, timeout=3000), "asan": dict(shards=16, timeout=1800)}),
     "C07": dict(level="exploration", shards=16, thorough_layers=[]),
